@@ -535,4 +535,259 @@ theorem mapE_error {α β ε} {f : α → Except ε β} {xs : List α} {e : ε} 
         exact ⟨x, List.mem_cons_of_mem _ hx, hxe⟩
       · cases h
 
+
+/-! ## the allocation loop of the launch -/
+
+theorem mem_set {β} {l : List (String × β)} {k : String} {v : β} {kv : String × β}
+    (h : kv ∈ Assoc.set l k v) : kv = (k, v) ∨ kv ∈ l := by
+  induction l with
+  | nil => simp [Assoc.set] at h; exact Or.inl h
+  | cons hd tl ih =>
+    obtain ⟨a, b⟩ := hd
+    unfold Assoc.set at h
+    split at h
+    · rcases List.mem_cons.mp h with h | h
+      · exact Or.inl h
+      · exact Or.inr (List.mem_cons_of_mem _ h)
+    · rcases List.mem_cons.mp h with h | h
+      · exact Or.inr (h ▸ List.mem_cons_self)
+      · rcases ih h with h | h
+        · exact Or.inl h
+        · exact Or.inr (List.mem_cons_of_mem _ h)
+
+theorem mem_of_get {β} {l : List (String × β)} {k : String} {v : β} (h : Assoc.get l k = some v) :
+    (k, v) ∈ l := by
+  induction l with
+  | nil => simp [Assoc.get] at h
+  | cons hd tl ih =>
+    obtain ⟨a, b⟩ := hd
+    unfold Assoc.get at h
+    split at h
+    · rename_i hk
+      rw [beq_iff_eq] at hk
+      cases h
+      subst hk
+      exact List.mem_cons_self
+    · exact List.mem_cons_of_mem _ (ih h)
+
+theorem exists_zip_of_mem {α β} {xs : List α} {ys : List β} (hlen : ys.length = xs.length) {x : α}
+    (hx : x ∈ xs) : ∃ y, (x, y) ∈ xs.zip ys := by
+  induction xs generalizing ys with
+  | nil => cases hx
+  | cons a xs ih =>
+    cases ys with
+    | nil => simp at hlen
+    | cons b ys =>
+      simp only [List.length_cons, Nat.add_right_cancel_iff] at hlen
+      rcases List.mem_cons.mp hx with rfl | hx'
+      · exact ⟨b, by simp⟩
+      · obtain ⟨y, hy⟩ := ih hlen hx'
+        exact ⟨y, by simp [hy]⟩
+
+/-- The step of the loop for one channel. -/
+def allocStep (bm : BindMap) (c : Inbound) (e : Endpoint) : BindMap :=
+  if c.global.isEmpty then Assoc.set bm c.name e else Assoc.set (Assoc.set bm c.name e) (aliasKey c.global) e
+
+theorem allocLocal_cons (bm : BindMap) (c : Inbound) (cs : List Inbound) (e : Endpoint) (es : List Endpoint) :
+    allocLocal bm (c :: cs) (e :: es) = allocLocal (allocStep bm c e) cs es := by
+  simp only [allocLocal, allocStep]
+
+theorem alias_ne_name {c : Inbound} (h : isAlias c.name = false) (g : String) : aliasKey g ≠ c.name := by
+  intro heq
+  rw [← heq, isAlias_aliasKey] at h
+  cases h
+
+theorem alloc_untouched (bm : BindMap) (cs : List Inbound) (es : List Endpoint) (k : String)
+    (h : ∀ c ∈ cs, c.name ≠ k ∧ (c.global.isEmpty = false → aliasKey c.global ≠ k)) :
+    Assoc.get (allocLocal bm cs es) k = Assoc.get bm k := by
+  induction cs generalizing bm es with
+  | nil => simp [allocLocal]
+  | cons c cs ih =>
+    cases es with
+    | nil => simp [allocLocal]
+    | cons e es =>
+      rw [allocLocal_cons, ih _ _ (fun c' hc' => h c' (List.mem_cons_of_mem _ hc'))]
+      obtain ⟨h1, h2⟩ := h c List.mem_cons_self
+      unfold allocStep
+      split
+      · exact get_set_ne _ _ _ _ h1
+      · rename_i hg
+        rw [get_set_ne _ _ _ _ (h2 (by simpa using hg)), get_set_ne _ _ _ _ h1]
+
+theorem alloc_name {bm : BindMap} {cs : List Inbound} {es : List Endpoint}
+    (hnd : (cs.map Inbound.name).Nodup) (hna : ∀ c ∈ cs, isAlias c.name = false)
+    {c : Inbound} {e : Endpoint} (h : (c, e) ∈ cs.zip es) :
+    Assoc.get (allocLocal bm cs es) c.name = some e := by
+  induction cs generalizing bm es with
+  | nil => simp at h
+  | cons c0 cs ih =>
+    cases es with
+    | nil => simp at h
+    | cons e0 es =>
+      simp only [List.map_cons, List.nodup_cons] at hnd
+      rw [allocLocal_cons]
+      simp only [List.zip_cons_cons, List.mem_cons, Prod.mk.injEq] at h
+      rcases h with ⟨rfl, rfl⟩ | h
+      · rw [alloc_untouched]
+        · unfold allocStep
+          split
+          · exact get_set_self _ _ _
+          · rw [get_set_ne _ _ _ _ (alias_ne_name (hna c List.mem_cons_self) _), get_set_self]
+        · intro c' hc'
+          refine ⟨fun heq => hnd.1 (heq ▸ List.mem_map_of_mem hc'), fun _ => ?_⟩
+          exact alias_ne_name (hna c List.mem_cons_self) _
+      · exact ih hnd.2 (fun c' hc' => hna c' (List.mem_cons_of_mem _ hc')) h
+
+theorem alloc_alias {bm : BindMap} {cs : List Inbound} {es : List Endpoint}
+    (hnd : (cs.map Inbound.name).Nodup) (hna : ∀ c ∈ cs, isAlias c.name = false)
+    (hal : ∀ c ∈ cs, ∀ c' ∈ cs, c.global.isEmpty = false → c'.global.isEmpty = false →
+      aliasKey c.global = aliasKey c'.global → c.name = c'.name)
+    {c : Inbound} {e : Endpoint} (h : (c, e) ∈ cs.zip es) (hg : c.global.isEmpty = false) :
+    Assoc.get (allocLocal bm cs es) (aliasKey c.global) = some e := by
+  induction cs generalizing bm es with
+  | nil => simp at h
+  | cons c0 cs ih =>
+    cases es with
+    | nil => simp at h
+    | cons e0 es =>
+      simp only [List.map_cons, List.nodup_cons] at hnd
+      rw [allocLocal_cons]
+      simp only [List.zip_cons_cons, List.mem_cons, Prod.mk.injEq] at h
+      rcases h with ⟨rfl, rfl⟩ | h
+      · rw [alloc_untouched]
+        · unfold allocStep
+          simp [hg, get_set_self]
+        · intro c' hc'
+          refine ⟨fun heq => ?_, fun hg' heq => ?_⟩
+          · exact alias_ne_name (hna c' (List.mem_cons_of_mem _ hc')) _ heq.symm
+          · have := hal c' (List.mem_cons_of_mem _ hc') c List.mem_cons_self hg' hg heq
+            exact hnd.1 (this ▸ List.mem_map_of_mem hc')
+      · exact ih hnd.2 (fun c' hc' => hna c' (List.mem_cons_of_mem _ hc'))
+          (fun a ha b hb => hal a (List.mem_cons_of_mem _ ha) b (List.mem_cons_of_mem _ hb)) h
+
+theorem alloc_mem {bm : BindMap} {cs : List Inbound} {es : List Endpoint} {kv : String × Endpoint}
+    (h : kv ∈ allocLocal bm cs es) :
+    kv ∈ bm ∨ ∃ p ∈ cs.zip es, kv = (p.1.name, p.2) ∨ (p.1.global.isEmpty = false ∧ kv = (aliasKey p.1.global, p.2)) := by
+  induction cs generalizing bm es with
+  | nil => simp [allocLocal] at h; exact Or.inl h
+  | cons c cs ih =>
+    cases es with
+    | nil => simp [allocLocal] at h; exact Or.inl h
+    | cons e es =>
+      rw [allocLocal_cons] at h
+      rcases ih h with h | ⟨p, hp, hpe⟩
+      · unfold allocStep at h
+        split at h
+        · rcases mem_set h with h | h
+          · exact Or.inr ⟨(c, e), by simp, Or.inl h⟩
+          · exact Or.inl h
+        · rename_i hg
+          rcases mem_set h with h | h
+          · exact Or.inr ⟨(c, e), by simp, Or.inr ⟨by simpa using hg, h⟩⟩
+          · rcases mem_set h with h | h
+            · exact Or.inr ⟨(c, e), by simp, Or.inl h⟩
+            · exact Or.inl h
+      · exact Or.inr ⟨p, by simp [hp], hpe⟩
+
+/-! ## plumbing for the property theorems -/
+
+theorem configure_ok {tasks : List Task} {res : List Props} (h : configure tasks = .ok res) :
+    ∃ bm, build [] (claims tasks) = .ok bm ∧ mapE (taskProps bm) tasks = .ok res := by
+  unfold configure at h
+  split at h
+  · cases h
+  · rename_i bm hb
+    exact ⟨bm, hb, h⟩
+
+theorem claims_sane {tasks : List Task} (hk : keysSane (claims tasks) = true) :
+    ∀ c ∈ claims tasks, sane c = true := by
+  intro c hc
+  have h1 := (List.all_eq_true.mp hk) c hc
+  obtain ⟨t, _, kv, _, rfl⟩ := mem_claims.mp hc
+  unfold claimOf at h1 ⊢
+  split
+  · rename_i ha; simp [sane, ha]
+  · rename_i ha
+    simp only [ha] at h1
+    simp only [sane]
+    simpa using h1
+
+theorem explicit_empty {s : String} (h : s.isEmpty = true) : explicit s = false := by
+  have : s = "" := by simpa using h
+  subst this
+  decide
+
+/-- From `launchOk`: the inbound channel behind an entry of the local bind map. -/
+theorem launch_entry {t : Task} (hl : launchOk t = true) {kv : String × Endpoint} (hkv : kv ∈ t.loc) :
+    ∃ c ∈ t.inbound, entryOf kv c ∧ Assoc.get t.loc c.name = some kv.2 ∧ freshFor c kv.2 = true := by
+  simp only [launchOk, Bool.and_eq_true, List.all_eq_true, List.any_eq_true, decide_eq_true_eq] at hl
+  obtain ⟨c, hc, he, hg⟩ := hl.2 kv hkv
+  refine ⟨c, hc, he, hg, ?_⟩
+  have := hl.1 c hc
+  rw [hg] at this
+  exact this
+
+theorem wf_claims {tasks : List Task} (hwf : WF tasks) :
+    (∀ c ∈ claims tasks, sane c = true) ∧ (∀ c ∈ claims tasks, validHost c.host = true) ∧
+    (∀ c ∈ claims tasks, rawBound c.raw = true) := by
+  refine ⟨claims_sane hwf.2, ?_, ?_⟩
+  · intro c hc
+    obtain ⟨t, ht, kv, _, rfl⟩ := mem_claims.mp hc
+    rw [claimOf_host]
+    exact (hwf.1 t ht).2.1
+  · intro c hc
+    obtain ⟨t, ht, kv, hkv, rfl⟩ := mem_claims.mp hc
+    rw [claimOf_raw]
+    obtain ⟨c', _, _, _, hf⟩ := launch_entry (hwf.1 t ht).1 hkv
+    exact freshFor_rawBound c' kv.2 hf
+
+/-- `clash` finds two alias claims with one key and different target-form endpoints. -/
+theorem clash_mem {cs : List Claim} (h : clash cs = true) :
+    ∃ c ∈ cs, ∃ d ∈ cs, c.alias = true ∧ d.alias = true ∧ d.key = c.key ∧ d.target ≠ c.target := by
+  induction cs with
+  | nil => cases h
+  | cons c cs ih =>
+    simp only [clash, Bool.or_eq_true, Bool.and_eq_true, List.any_eq_true, beq_iff_eq,
+      decide_eq_true_eq] at h
+    rcases h with ⟨hc, d, hd, ⟨hda, hdk⟩, hdt⟩ | h
+    · exact ⟨c, List.mem_cons_self, d, List.mem_cons_of_mem _ hd, hc, hda, hdk, hdt⟩
+    · obtain ⟨x, hx, y, hy, r⟩ := ih h
+      exact ⟨x, List.mem_cons_of_mem _ hx, y, List.mem_cons_of_mem _ hy, r⟩
+
+/-! ## merge -/
+
+theorem mergeBy_find {α} (name : α → String) (n : String) (hp lp : List α) :
+    findName name n (mergeBy name hp lp) = (findName name n hp).or (findName name n lp) := by
+  unfold mergeBy
+  induction lp generalizing hp with
+  | nil => simp [findName]
+  | cons v lp ih =>
+    simp only [List.foldl_cons]
+    split
+    · rename_i hany
+      rw [ih]
+      cases hf : findName name n hp with
+      | some x => simp
+      | none =>
+        simp only [Option.none_or]
+        -- v's name is taken in hp but n is not found there, so v is not named n
+        have hvn : (name v == n) = false := by
+          cases hvn : name v == n with
+          | false => rfl
+          | true =>
+            exfalso
+            obtain ⟨c, hc, hcn⟩ := List.any_eq_true.mp hany
+            have : name c = n := by
+              rw [beq_iff_eq] at hcn hvn; rw [hcn, hvn]
+            have hnone := List.find?_eq_none.mp hf c hc
+            simp [this] at hnone
+        simp [findName, hvn]
+    · rename_i hany
+      rw [ih]
+      simp only [findName, List.find?_append]
+      cases hf : List.find? (fun c => name c == n) hp with
+      | some x => simp
+      | none => cases hvn : name v == n <;> simp [hvn]
+
+
 end Channels
